@@ -365,9 +365,17 @@ func runReceivers(r *engine.Run) {
 		}},
 	}
 	argSets := []struct{ name, src string }{{"noargs", ""}, {"args", `"e", 1`}}
-	for _, m := range genericMethods {
+	for _, m := range append(append([]string{}, genericMethods...), "substr") {
 		for _, recv := range []string{"undefined", "null"} {
 			for _, as := range argSets {
+				// 15.5.4.x step 1 rejects undefined and null; B.2.3 substr has no such step in
+				// ES5.1: it converts the this value with ToString ("undefined" / "null").
+				typeError := typeError
+				if m == "substr" {
+					if k := rejectKase(m, ox.Units(recv), as.name); k != nil {
+						typeError, _ = spec(k)
+					}
+				}
 				for _, d := range deliveries {
 					if d.name == "local" && recv != "undefined" {
 						continue
@@ -432,10 +440,24 @@ func filed(r *engine.Run, key, input, exp, obs string, aux map[string]string) {
 var numObjArgs = []struct {
 	name, js string
 	num      float64
+	// goSyntax: a string that is not a StringNumericLiteral (9.3.1: NaN) but that Go's
+	// strconv accepts; goNum is the value strconv gives it (known finding F-C05-002 / F-C09-019)
+	goSyntax bool
+	goNum    float64
 }{
-	{"valueOf", "({valueOf: function(){ return 2 }})", 2}, {"toStringNum", `({toString: function(){ return "3" }})`, 3}, {"numobj", "new Number(1)", 1},
-	{"strfrac", `"1.9"`, 1.9}, {"strneg", `"-1"`, -1}, {"strjunk", `"1x"`, math.NaN()}, {"strhex", `"0x2"`, 2}, {"strinf", `"Infinity"`, math.Inf(1)},
-	{"arr", "[2]", 2}, {"emptyarr", "[]", 0}, {"false", "false", 0}, {"strempty", `""`, 0}, {"strexp", `"1e1"`, 10}, {"large", "4294967297", 4294967297}, {"neglarge", "-4294967295", -4294967295},
+	{name: "valueOf", js: "({valueOf: function(){ return 2 }})", num: 2}, {name: "toStringNum", js: `({toString: function(){ return "3" }})`, num: 3}, {name: "numobj", js: "new Number(1)", num: 1},
+	{name: "strfrac", js: `"1.9"`, num: 1.9}, {name: "strneg", js: `"-1"`, num: -1}, {name: "strjunk", js: `"1x"`, num: math.NaN()}, {name: "strhex", js: `"0x2"`, num: 2}, {name: "strinf", js: `"Infinity"`, num: math.Inf(1)},
+	{name: "arr", js: "[2]", num: 2}, {name: "emptyarr", js: "[]", num: 0}, {name: "false", js: "false", num: 0}, {name: "strempty", js: `""`, num: 0}, {name: "strexp", js: `"1e1"`, num: 10}, {name: "large", js: "4294967297", num: 4294967297}, {name: "neglarge", js: "-4294967295", num: -4294967295},
+	// the StringNumericLiteral grammar (9.3.1) seen through position arguments
+	{name: "strpad", js: `" 2 "`, num: 2}, {name: "strplus", js: `"+2"`, num: 2}, {name: "strdot", js: `"2."`, num: 2}, {name: "strleaddot", js: `".5e1"`, num: 5},
+	{name: "strNegInfinity", js: `"-Infinity"`, num: math.Inf(-1)}, {name: "strPlusInfinity", js: `"+Infinity"`, num: math.Inf(1)},
+	{name: "strsignedhex", js: `"+0x2"`, num: math.NaN()}, {name: "strneghex", js: `"-0x2"`, num: math.NaN()}, {name: "strbin", js: `"0b10"`, num: math.NaN()},
+	{name: "stroct", js: `"0o2"`, num: math.NaN()}, {name: "strbareexp", js: `"2e"`, num: math.NaN()}, {name: "stronlydot", js: `"."`, num: math.NaN()},
+	{name: "strhexfloat", js: `"0x1p1"`, num: math.NaN()}, {name: "strnan", js: `"nan"`, num: math.NaN()}, {name: "strtwo", js: `"2 2"`, num: math.NaN()},
+	{name: "strinfinity", js: `"infinity"`, num: math.NaN(), goSyntax: true, goNum: math.Inf(1)}, {name: "strinfshort", js: `"inf"`, num: math.NaN(), goSyntax: true, goNum: math.Inf(1)},
+	{name: "strPlusInf", js: `"+Inf"`, num: math.NaN(), goSyntax: true, goNum: math.Inf(1)}, {name: "strneginf", js: `"-inf"`, num: math.NaN(), goSyntax: true, goNum: math.Inf(-1)},
+	{name: "strINFINITY", js: `"INFINITY"`, num: math.NaN(), goSyntax: true, goNum: math.Inf(1)},
+	{name: "strunderscore", js: `"1_0"`, num: math.NaN(), goSyntax: true, goNum: 10}, {name: "strunderscore2", js: `"0_2"`, num: math.NaN(), goSyntax: true, goNum: 2},
 }
 
 // ---------------------------------------------------------------- argconv: ToString / ToNumber of non-primitive-string arguments
